@@ -173,6 +173,13 @@ func genC19(t *rapid.T) c19Case {
 		stats.labelOnly("echoed-literal-across-messages", 1)
 		return c
 	}
+	if rapid.IntRange(0, 29).Draw(t, "gluedDot") == 29 {
+		// a header-only message whose terminator is glued to its name ("Name."): the unchanged parser takes the
+		// dot as part of the name and rejects the text (excluded); a parser that accepts it must keep the messages apart
+		c.Texts = []string{"S1F1 W H->E AreYouThere.", rapid.SampledFrom([]string{"S2F2 H<-E\n<U1 1>\n.", "S2F3 W\n.", "S5F1 W H->E Alarm <L> ."}).Draw(t, "second")}
+		c.Seps = []string{rapid.SampledFrom([]string{"", "", " ", "\n"}).Draw(t, "joiner")}
+		return c
+	}
 	if rapid.IntRange(0, 7).Draw(t, "conversation") == 7 {
 		// related headers: a primary message and the messages that usually follow it (the reply: same stream, next
 		// function; the same message again; the next primary), with parts of the header left out in some of them
